@@ -141,7 +141,10 @@ fn run_case(sc: &Value, rng: &mut SmallRng) -> Vec<Value> {
         "ss" | "ss-multi" => {
             let multi = cfg == "ss-multi";
             let ciphers: Vec<Cipher> = if multi { vec![Cipher::Aes128Gcm2022, Cipher::Aes256Gcm2022] } else { Cipher::ALL.to_vec() };
-            for c in ciphers {
+            // uk "S": the server key in the user key's place, behind an identity header made with the server key itself
+            // (variant 0) or with some other key (variant 1: the header then decrypts to a hash that names nobody)
+            let nvar = if uk == "S" { 2 } else { 1 };
+            for (c, variant) in ciphers.into_iter().flat_map(|c| (0..nvar).map(move |v| (c, v))) {
                 let users = if multi { 2 } else { 0 };
                 let (_, sp, us) = sut::ss_passwords(c, users);
                 let n = c.key_len();
@@ -160,9 +163,11 @@ fn run_case(sc: &Value, rng: &mut SmallRng) -> Vec<Value> {
                     };
                     let user_key = match user_index(uk) {
                         Some(i) => rc::b64(&us[i].1),
+                        None if uk == "S" => right.clone(),
                         None => sut::key_raw(c, 77), // not registered
                     };
-                    let pw = if multi { format!("{}:{}", rc::b64e(&server_key), rc::b64e(&user_key)) } else { rc::b64e(&server_key) };
+                    let header_key = if uk == "S" && variant == 1 { sut::key_raw(c, 88) } else { server_key.clone() };
+                    let pw = if multi { format!("{}:{}", rc::b64e(&header_key), rc::b64e(&user_key)) } else { rc::b64e(&server_key) };
                     let r = rc::Req2022 { typ: 0, ts: now, addr: addr(), padding: 0, first_payload: b"hello".to_vec(), salt: salt.clone() };
                     let mut w = rc::ss2022_request(c, &pw, &r).out;
                     if multi && sc["claim"].as_str() == Some("other") {
@@ -214,7 +219,7 @@ fn run_case(sc: &Value, rng: &mut SmallRng) -> Vec<Value> {
                         user = reply.clone();
                     }
                 }
-                out.push(json!({"variant": c.name(), "emit": emitted(&got), "user": user, "reply": reply, "detail": brief(&got)}));
+                out.push(json!({"variant": format!("{} v{variant}", c.name()), "emit": emitted(&got), "user": user, "reply": reply, "detail": brief(&got)}));
             }
         }
         "ss-udp" | "ss-udp-multi" => {
@@ -238,6 +243,7 @@ fn run_case(sc: &Value, rng: &mut SmallRng) -> Vec<Value> {
                     };
                     let user_key = match user_index(uk) {
                         Some(i) => rc::b64(&us[i].1),
+                        None if uk == "S" => right.clone(), // no user key known: the server key in its place
                         None => sut::key_raw(c, 77),
                     };
                     let pw = if multi { format!("{}:{}", rc::b64e(&server_key), rc::b64e(&user_key)) } else { rc::b64e(&server_key) };
